@@ -118,6 +118,21 @@ def make_fv(itp, qualname):
 
 
 def run_case(cls, case_idx, timeout_ms=None):
+    """one contract case in isolation: contracts install their own assumed library contracts (lib.table[...] = ...)
+    for the duration of their case; the shared registry is restored afterwards so that nothing leaks into the next
+    case run by the same worker process"""
+    lib = get_lib()
+    saved = {name: dict(getattr(lib, name)) for name in ("table", "builtins", "array_methods", "array_attrs")}
+    try:
+        return _run_case(cls, case_idx, timeout_ms)
+    finally:
+        for name, d in saved.items():
+            cur = getattr(lib, name)
+            cur.clear()
+            cur.update(d)
+
+
+def _run_case(cls, case_idx, timeout_ms=None):
     """symbolically execute one contract case; returns a picklable dict"""
     T.reset_fresh()
     from vf.engine import vc as _vc
